@@ -7,6 +7,7 @@ from .common import V, Acc, hsh
 from . import graphs as gr
 from . import analytic_catalog as cat
 from .fam_repro import L
+from . import fam_repro as fr
 
 TOL = 1e-5   # solver-tolerance level: a changed summation order changes adaptive step decisions
 
@@ -75,7 +76,58 @@ def canon_out(name, out, full, G, labels):
     return res
 
 
+def sample_graph_fresh(n, seed, labels):
+    """fam_repro.sample_graph with every mention of a node being a fresh, equal object (same insertion order)."""
+    rng = random.Random(seed)
+    G = nx.Graph()
+    G.add_nodes_from(cp(x) for x in labels)
+    for i in range(n):
+        for j in range(i + 1, n):
+            if rng.random() < min(1.0, 2.5 / n) or j == i + 1:
+                G.add_edge(cp(labels[i]), cp(labels[j]), w=0.2 + rng.random(), weight=0.5 + rng.random())
+    for v in labels:
+        G.nodes[cp(v)]["rw"] = 0.5 + rng.random()
+    return G
+
+
+def run_identity(spec, props):
+    """Seeded runs of every stochastic simulator on a graph whose node objects are shared and on its twin whose
+    every node mention is an equal-but-not-identical object: identical outputs (names are compared with ==,
+    never with `is`)."""
+    EoN, sim = import_eon()
+    warnings.filterwarnings("ignore")
+    A = Acc()
+    n = spec["n"]; labels = labelings(n)[spec["labeling"]]
+    Gs = fr.sample_graph(n, spec["gseed"], list(labels))
+    Gf = sample_graph_fresh(n, spec["gseed"], list(labels))
+    if spec.get("selfloop"):
+        Gs.add_edge(labels[1], labels[1], w=0.7, weight=0.9); Gf.add_edge(cp(labels[1]), cp(labels[1]), w=0.7, weight=0.9)
+        Gs.add_edge(labels[n - 1], labels[n - 1], w=0.4, weight=1.1); Gf.add_edge(cp(labels[n - 1]), cp(labels[n - 1]), w=0.4, weight=1.1)
+    if fr.sig(Gs) != fr.sig(Gf):
+        raise RuntimeError("twin graphs differ")
+    for full in (False, True):
+        sims_s = dict(fr.simulators(EoN, Gs, list(labels), full=full)); sims_s.update(fr.discrete_sims(EoN, Gs, list(labels), full=full))
+        fl = [cp(x) for x in labels]
+        sims_f = dict(fr.simulators(EoN, Gf, fl, full=full)); sims_f.update(fr.discrete_sims(EoN, Gf, fl, full=full))
+        for name in sorted(sims_s):
+            for sd in spec["seeds"]:
+                try:
+                    a, _ = fr.seeded(sims_s[name], sd); b, _ = fr.seeded(sims_f[name], sd)
+                except Exception as e:
+                    A.add(V("C14", name, "identity:" + spec["labeling"], "exception", "%s raised %s: %s" % (name, type(e).__name__, str(e)[:100]))); break
+                A.execs += 2; A.evals += 1
+                A.states.add((name, full, sd)); A.nontrivial.add((name, full, sd)); A.trans.add((name, full)); A.outcomes.add(hsh(a))
+                if a != b:
+                    A.add(V("C14", name, "identity:" + spec["labeling"], "label_dependent",
+                            "%s (full=%s, seed %d) on a %d-node graph with %s labels: the seeded output changes when every mention of a node is an equal but not identical object" % (name, full, sd, n, spec["labeling"])))
+                    break
+    A.sample = {"spec": spec}
+    return A.result(props)
+
+
 def run_spec(spec, props=("C14",)):
+    if spec["kind"] == "identity":
+        return run_identity(spec, props)
     EoN, sim = import_eon()
     warnings.filterwarnings("ignore")
     np.seterr(all="ignore")
@@ -225,9 +277,13 @@ def run_spec(spec, props=("C14",)):
     return A.result(props)
 
 
-def specs(tier):
+def specs(tier, seed=0):
     out = []
     thorough = tier != "quick"
+    for lab in ("strings", "tuples", "bigint"):
+        for n in ((6, 9) if not thorough else (5, 6, 8, 9, 12)):
+            for sl in (False, True):
+                out.append(dict(kind="identity", n=n, labeling=lab, gseed=3 + n, selfloop=sl, seeds=[seed + k for k in range(3 if not thorough else 8)]))
     names = [x for x in cat.all_names()]
     gs = [(4, es) for es in gr.shapes(4) if es]
     gs += [(5, es) for es in gr.trees_cached(5)] + [(6, es) for es in (gr.trees_cached(6) if thorough else gr.trees_cached(6)[:2])]
